@@ -75,6 +75,8 @@ def alphabet(fam, cap, full=True):
     ops.append("asi " + lst([5, 3, 2, 0, 1]))   # more distinct keys than any exhaustive capacity
     ops.append("cp")
     if fam not in STATIC:
+        for p in range(cap + 1):
+            ops.append(f"epc {p}")   # flat_set::erase(const_iterator); ep calls erase(iterator)
         ops.append("asui " + lst([0, 2, 4][:cap]))
         ops.append("asui " + lst([1, 2, 3, 4, 5]))
         for k in (1, 4):
@@ -87,6 +89,15 @@ def alphabet(fam, cap, full=True):
         ops.append("ef 0 0")
         ops.append("ef 0 1")
         ops.append("ef 1 3")
+    if fam == "fsd":
+        # the constructors that take the comparator (d = 1: descending), from a range / a sorted_unique range
+        ops.append("asic 1 " + lst([4, 1, 4]))
+        ops.append("asic 0 " + lst([5, 3, 2, 0][:cap]))
+        ops.append("asic 1 " + lst([0, 5, 2, 4][:cap]))
+        ops.append("asic 1 " + lst([5, 3, 2, 0, 1]))
+        ops.append("asuic 1 " + lst([4, 2, 0][:cap]))
+        ops.append("asuic 0 " + lst([0, 2, 4][:cap]))
+        ops.append("asuic 1 " + lst([0, 2, 4][:cap]))   # not sorted under the comparator it is handed
     return ops
 
 
@@ -122,6 +133,184 @@ QUICK_PLAN = {
     ("sst", "less", 3): (True, 0.005), ("sst", "half", 3): (True, 0.005), ("sst", "tless", 3): (True, 0.005),
     ("fst", "less", 3): (True, 0.005), ("fst", "half", 3): (True, 0.005), ("fst", "tless", 3): (True, 0.005),
 }
+
+
+def ckey(cmp, k):
+    """position of key k in the order of comparator cmp (equal value = equivalent key)"""
+    if cmp in ("greater", "desc"):
+        return -k
+    if cmp == "half":
+        return int(k / 2)   # C++ int division truncates towards zero
+    return k
+
+
+class Sim:
+    """the two sets of a history, simulated only to pick VALID arguments for the random histories (a wrong
+    simulation would merely produce calls outside their domain, which the legs report as such)"""
+
+    def __init__(self, fam, cmp, cap):
+        self.flat = fam not in STATIC
+        self.dyn = fam == "fsd"
+        self.cap = cap
+        self.cs, self.ct = (("less", "desc") if self.dyn else (cmp, cmp))
+        self.dflt = "less" if self.dyn else cmp
+        self.s, self.t = [], []
+
+    def has(self, k):
+        return any(ckey(self.cs, e) == ckey(self.cs, k) for e in self.s)
+
+    def insert(self, k):
+        if not self.has(k) and len(self.s) < self.cap:
+            self.s.append(k)
+            self.s.sort(key=lambda e: ckey(self.cs, e))
+
+    def build(self, ks, cmp):
+        r = []
+        for k in ks:
+            if not any(ckey(cmp, e) == ckey(cmp, k) for e in r) and len(r) < self.cap:
+                r.append(k)
+        return sorted(r, key=lambda e: ckey(cmp, e))
+
+
+def valid_history(fam, cmp, cap, n, rng, universe):
+    """a random history of n calls that stays inside the domain of every call (capacity-aware): positions and
+    index pairs inside the set, hints in [begin, end], containers that fit and are sorted where they must be; a
+    new key into a full flat_set (the fatal case) only as the last call"""
+    m = Sim(fam, cmp, cap)
+    seq = []
+    if cap >= 8 and rng.random() < 0.6:
+        # start from a well-filled set (5 .. cap keys, pairwise inequivalent, in random order)
+        classes = sorted(set(ckey(m.cs, x) for x in universe))
+        chosen = rng.sample(classes, rng.randint(min(5, len(classes)), min(cap, len(classes))))
+        ks = [rng.choice([x for x in universe if ckey(m.cs, x) == c]) for c in chosen]
+        seq.append("ir " + lst(ks))
+        for x in ks:
+            m.insert(x)
+    for step in range(n):
+        size = len(m.s)
+        r = rng.random()
+        k = rng.choice(universe)
+        full_new = size == cap and not m.has(k)
+        if r < 0.42:
+            if full_new and m.flat and step != n - 1:
+                k = rng.choice(m.s) if m.s else k
+                if size == cap and not m.has(k):
+                    continue
+            if m.flat and rng.random() < 0.4:
+                code = rng.choice(["ih", "ihc", "ihm", "eh"])
+                seq.append(f"{code} {rng.randint(0, size)} {k}")
+            else:
+                seq.append(f"{rng.choice(['i', 'e', 'im', 'ic'])} {k}")
+            m.insert(k)
+        elif r < 0.54:
+            seq.append(f"ek {k}")
+            m.s = [e for e in m.s if ckey(m.cs, e) != ckey(m.cs, k)]
+        elif r < 0.62:
+            if size == 0:
+                continue
+            p = rng.randint(0, size - 1)
+            seq.append(f"{'epc' if m.flat and rng.random() < 0.5 else 'ep'} {p}")
+            del m.s[p]
+        elif r < 0.72:
+            a = rng.randint(0, size)
+            b = rng.randint(a, min(size, a + 3))
+            seq.append(f"er {a} {b}")
+            del m.s[a:b]
+        elif r < 0.78:
+            seq.append("sw")
+            m.s, m.t = m.t, m.s
+            m.cs, m.ct = m.ct, m.cs
+        elif r < 0.81:
+            seq.append("cp")
+            m.s, m.cs = list(m.t), m.ct
+        elif r < 0.86:
+            ks = [rng.choice(universe) for _ in range(rng.randint(0, 4))]
+            room = cap - size
+            fresh = []
+            for x in ks:
+                if not m.has(x) and not any(ckey(m.cs, x) == ckey(m.cs, y) for y in fresh):
+                    fresh.append(x)
+            if m.flat and len(fresh) > room:
+                continue
+            seq.append("ir " + lst(ks))
+            for x in ks:
+                m.insert(x)
+        elif r < 0.90:
+            ks = [rng.choice(universe) for _ in range(rng.randint(0, cap))]
+            code = rng.choice(["as", "asi", "asic"] if m.dyn else ["as", "asi"])
+            order = m.dflt
+            if code == "asic":
+                d = rng.randint(0, 1)
+                order = "desc" if d else "less"
+                code = f"asic {d}"
+            seq.append(f"{code} " + lst(ks))   # at most cap keys: always fits
+            m.cs = order
+            m.s = m.build(ks, order)
+        elif r < 0.94 and m.flat:
+            which = rng.choice(["rp", "asu", "asui", "x", "ef"] + (["asuic"] if m.dyn else []))
+            if which == "x":
+                seq.append("x")
+                m.s = []
+            elif which == "ef":
+                t, v = rng.choice([(0, 0), (0, 1), (1, rng.choice(universe))])
+                seq.append(f"ef {t} {v}")
+                # C++ %: the sign follows the dividend (-3 % 2 == -1)
+                m.s = [e for e in m.s if not (((abs(e) % 2) * (1 if e >= 0 else -1) == v) if t == 0 else e < v)]
+            else:
+                order = m.cs if which == "rp" else m.dflt
+                if which == "asuic":
+                    d = rng.randint(0, 1)
+                    order = "desc" if d else "less"
+                    which = f"asuic {d}"
+                pool = sorted(set(ckey(order, x) for x in universe))
+                cnt = rng.randint(0, min(cap, len(pool)))
+                chosen = sorted(rng.sample(pool, cnt))
+                ks = []
+                for c in chosen:
+                    ks.append(rng.choice([x for x in universe if ckey(order, x) == c]))
+                seq.append(f"{which} " + lst(ks))
+                m.s = ks
+                if which != "rp":
+                    m.cs = order
+        elif r < 0.96:
+            seq.append("cl")
+            m.s = []
+    return seq
+
+
+def targeted(fam, cmp, cap, quick):
+    """hinted inserts with EVERY hint position of the set (begin .. end) and every key (equal / equivalent to the
+    first, the last, a middle element; absent in every gap) through every overload; the insert overloads by name;
+    every valid position / index pair erased and then a later insertion at the front and at the back"""
+    out = []
+    flat = fam not in STATIC
+    for pre, _ in reach_prefixes(cap, False):
+        n = 0 if not pre else len(pre.split()) // 2
+        head = f"{fam}_{cmp} {cap} {pre}".rstrip()
+        for k in KEYS:
+            out.append(f"{head} im {k}")
+            out.append(f"{head} ic {k}")
+        if flat:
+            for h in range(n + 1):
+                for k in KEYS:
+                    # quick: all three overloads + a later insert of the same key for flat_set over static_vector<int>,
+                    # emplace_hint and insert(hint, const&) for the other containers / the tracked key type
+                    lean = quick and not fam.startswith("fsv")
+                    for code in (("eh", "ihc") if lean else ("eh", "ihc", "ihm")):
+                        out.append(f"{head} {code} {h} {k}")
+                    if not lean:
+                        out.append(f"{head} eh {h} {k} i {k}")
+                    if not quick:
+                        out.append(f"{head} ih {h} {k} ek {k}")
+        for a in range(n + 1):
+            for b in range(a, n + 1):
+                for k in (0, 5):
+                    out.append(f"{head} er {a} {b} i {k}")
+        for p in range(n):
+            for code in (("ep", "epc") if flat else ("ep",)):
+                for k in (0, 5):
+                    out.append(f"{head} {code} {p} i {k}")
+    return out
 
 
 def gen(tier, rng):
@@ -175,6 +364,25 @@ def gen(tier, rng):
                 if cmp == "less" or not quick:
                     for o2 in alpha:
                         out.append(f"{head} {o1} {o2}")
+    # --- 2d. every hint position x every key x every overload; named insert overloads; erase + later insertion
+    for fam in FAMS + TRACKED:
+        for cmp in CMPS:
+            for cap in (3, 4):
+                if quick and ((fam, cmp, cap) not in QUICK_PLAN or cap == 4):
+                    continue
+                out += targeted(fam, cmp, cap, quick)
+    for cap in (3,):
+        out += [c for c in targeted("fsd", "dyn", cap, quick)]
+    # --- 2e. seeded random histories that stay inside the domain of every call (so the reference leg is defined
+    #         and the sets grow: capacity 8 over keys -3..8, capacity 3/4 over 0..5)
+    for fam in FAMS + TRACKED + ["fsd"]:
+        for cmp in (CMPS if fam != "fsd" else ["dyn"]):
+            for cap, universe in ((8, list(range(-3, 9))), (4 if fam != "fsd" else 3, KEYS)):
+                if cap == 4 and fam in TRACKED and quick:
+                    continue
+                for _ in range((120 if cap == 8 else 60) if quick else 2500):
+                    seq = valid_history(fam, cmp, cap, rng.randint(4, 16 if cap == 8 else 10), rng, universe)
+                    out.append(f"{fam}_{cmp} {cap} " + " ".join(seq))
     # --- 3. all histories from the empty set over the core alphabet (insert / erase of every key, clear, swap)
     for fam in FAMS + TRACKED:
         for cmp in CMPS:
